@@ -1,5 +1,5 @@
 from prophyc import model
-from prophyc.generators.base import GenerateError, GeneratorBase, TranslatorBase
+from prophyc.generators.base import GenerateError, GeneratorBase, TranslatorBase, check_cpp_names
 
 primitive_types = {
     'u8': 'uint8_t',
@@ -401,6 +401,7 @@ class CppGenerator(GeneratorBase):
     }
 
     def check_nodes(self, nodes):
+        check_cpp_names(nodes)
         for n in nodes:
             if isinstance(n, (model.Struct, model.Union)) and n.byte_size is None:
                 raise GenerateError('{0} byte size unknown'.format(n.name))
